@@ -250,6 +250,21 @@ func (r *rwRT) ruleOracles() {
 				err = fmt.Errorf("func F() { g := func() {}; Yield() } marks %v, expected exactly F", m)
 			}
 		}
+		// yield in F after a closure that itself contains a literal: still F
+		D := r.node("FuncLit", "D")
+		if st, ok := run([]step{{"pre", F}, {"pre", L}, {"pre", D}, {"post", D}, {"post", L}, {"pre", call}, {"post", call}, {"post", F}}, yieldObj); ok {
+			if m := marked(st, mark0); (len(m) != 1 || m[0] != "F") && err == nil {
+				err = fmt.Errorf("func F() { c := func() { d := func() {} }; Yield() } marks %v, expected exactly F (the enclosing-function bookkeeping does not return to F after leaving nested literals)", m)
+			}
+		} else if err == nil {
+			err = fmt.Errorf("traversal over doubly nested literals does not complete")
+		}
+		// yield in the middle literal after its inner literal closed: the middle literal
+		if st, ok := run([]step{{"pre", F}, {"pre", L}, {"pre", D}, {"post", D}, {"pre", call}, {"post", call}, {"post", L}, {"post", F}}, yieldObj); ok {
+			if m := marked(st, mark0); (len(m) != 1 || m[0] != "L") && err == nil {
+				err = fmt.Errorf("a yield in a literal after its inner literal closed marks %v, expected exactly that literal", m)
+			}
+		}
 		// a call of something else marks nothing
 		if st, ok := run([]step{{"pre", F}, {"pre", call}, {"post", call}, {"post", F}}, Sym{Name: "obj:other", NN: true, Uniq: true}); ok {
 			if m := marked(st, mark0); len(m) != 0 && err == nil {
